@@ -54,7 +54,10 @@ def run_jobs(cmds):
 
 def prune(prefix, keep):
     ds = sorted(glob.glob(os.path.join(BUILD, prefix + "-*")), key=os.path.getmtime, reverse=True)
+    now = time.time()
     for d in ds[keep:]:
+        # never remove a directory another (concurrent) check may still be running or replaying from
+        if ".tmp" in os.path.basename(d) or now - os.path.getmtime(d) < 3 * 3600: continue
         shutil.rmtree(d, ignore_errors=True)
 
 def main():
@@ -85,7 +88,7 @@ def main():
         for o in objs: os.unlink(o)
         shutil.rmtree(libdir, ignore_errors=True); os.rename(tmp, libdir)
         sys.stderr.write("[build] %s: asmjit library built from %s in %.1fs (%d TUs)\n" % (flavour, repo, time.time() - t0, len(tus)))
-        prune("lib-" + flavour, 3)
+        prune("lib-" + flavour, 4)
     else:
         os.utime(libdir)
 
@@ -114,7 +117,7 @@ def main():
         for o in objs: os.unlink(o)
         shutil.rmtree(bindir, ignore_errors=True); os.rename(tmp, bindir)
         sys.stderr.write("[build] %s: harness built in %.1fs\n" % (flavour, time.time() - t0))
-        prune("bin-" + flavour, 3)
+        prune("bin-" + flavour, 4)
     else:
         os.utime(bindir)
     print(exe)
